@@ -41,6 +41,28 @@ PROPS = {
         assumptions=["usize = 64 bits", "every string < 2^63 bytes (isize::MAX)", "Stats arithmetic not modelled", "String::from_utf8 in get not modelled (result = pushed &str)"],
         open=["vbyte code lengths 5..9 are not reachable through the public API (strings >= 270 MB): covered by the round-trip theorem and a one-off comparison only"],
     ),
+    "C10": dict(
+        claim="copy_correct (bit-exact result of all six branches of BitFieldVec::copy, min-length clipping, frame), apply_correct (apply_in_place = mapAccum: exactly one call per element, in index order, on the current value, results stored, frame) for both code paths, chunk views address exactly the corresponding elements or return Err, get_unaligned = get under its documented preconditions, for every word size; BitVec fill/flip/reset/count_ones word loops = per-element loops (C06 theorems); par_* variants are the same functions (rayon a parameter). Tied to the code by differential correspondence with random contents over all relative alignments, all branches hit and counted.",
+        note="Trusted: Lean kernel + {propext, Classical.choice, Quot.sound}; model + harness; rayon's par_iter applies the same closure to the same disjoint words (not modelled).",
+        lean=["SuxModel.Props.C10", "SuxModel.Props.C06"],
+        runners=["bfv", "bitvec"],
+        ops={"wordtype", "raw", "clone", "copy", "apply", "chunk_set", "chunk_get", "get_unaligned", "reset", "par_reset", "areset",
+             "fill", "par_fill", "afill", "flip", "par_flip", "aflip", "count_ones", "par_count_ones", "acount", "count_zeros"},
+        trusted_base=["BitFieldVec model (copy, applyInPlace, chunkOp, getUnaligned) and BitVec model (fillWords, flip, countOnes)"],
+        assumptions=["word sizes are powers of two (8..128)", "the apply callback returns values that fit (apply_in_place checks it and panics otherwise; the panic path is not generated)"],
+        open=[],
+    ),
+    "C14": dict(
+        claim="Readers ignore garbage: every observation of BitVec / BitFieldVec (get, counting, iteration over bits / ones / zeros, equality, unchecked iterators) is a function of the logical contents only, for arbitrary storage beyond len*width (stale bits, spare words). Writers keep the frame: set, fill, flip, reset, copy-into, apply_in_place, chunked writes, atomic set/reset change no storage bit outside the documented elements. Restated from the C05/C06/C10 theorems; tied to the code by running every history over dirty raw backends and comparing all backing words after every op (model) and the untouched-bits oracle (harness).",
+        note="Trusted: Lean kernel + {propext, Classical.choice, Quot.sound}; model + harness.",
+        lean=["SuxModel.Props.C14"],
+        runners=["bitvec", "bfv"],
+        ops=None,
+        frame_only=True,
+        trusted_base=["BitVec and BitFieldVec models operate on raw words; St.Inv says nothing about bits beyond the logical length"],
+        assumptions=["par_count_ones / parallel variants = sequential functions"],
+        open=[],
+    ),
     "C18": dict(
         claim="Partition theorem on the SigStore model (mirror of sig_store.rs: high_bits, new_online/new_offline, try_push, into_shard_store, both ShardIterator::next impls with equal/aggregate/split branches, borrowed and consuming): for every backend, signature width, pushed list and admissible (bucket bits, max shard bits, shard bits), iteration yields exactly 2^shard_bits shards, shard i is (as a multiset) the pushed pairs whose top shard_bits bits are i, shard_sizes[i] is its length, len is the number pushed, the union is the pushed multiset, borrowed iteration leaves the store unchanged and equals the consuming one; no panic, no uninitialised read. Model tied to the code by differential correspondence (online/offline, [u64;1]/[u64;2], u8/u64/EmptyVal, all triples with bits <= 6 quick / <= 10 thorough).",
         note="Trusted: Lean kernel + {propext, Classical.choice, Quot.sound}; hand-written model + correspondence harness; binary file I/O is a parameter (a bucket file = the list of pairs written, read_exact returns a prefix, set_len(0) empties); usize = 64 bits; allocator never fails.",
